@@ -20,7 +20,7 @@ pub type FmtResult = Result<(), core::fmt::Error>;
 // Display for ConstValue / Name (value/src/lib.rs, partly proved in C15): opaque here
 pub uninterp spec fn display_value(v: ConstValue) -> Seq<char>;
 pub trait LogSink {
-    fn write_value(&mut self, v: &ConstValue) -> (r: FmtResult) ensures r is Ok ==> final(self).text() == old(self).text() + display_value(*v);
+    fn write_value(&mut self, v: &ConstValue) -> (r: FmtResult) ensures r is Ok, final(self).text() == old(self).text() + display_value(*v);
     spec fn text(&self) -> Seq<char>;
 }
 impl LogSink for String {
@@ -28,19 +28,82 @@ impl LogSink for String {
     #[verifier::external_body]
     fn write_value(&mut self, v: &ConstValue) -> (r: FmtResult) { unimplemented!() }
 }
-impl<V> IndexMapN<V> {
-    #[verifier::external_body]
-    pub fn len(&self) -> (r: usize) ensures r == self.entries().len() { unimplemented!() }
-    #[verifier::external_body]
-    pub fn entry(&self, i: usize) -> (r: (&Name, &V)) requires i < self.entries().len() ensures *r.0 == self.entries()[i as int].0, *r.1 == self.entries()[i as int].1 { unimplemented!() }
+'''
+
+REDACT_SPEC = r'''
+// ================= what the logged text of an input value may depend on (stated independently of the code)
+pub open spec fn opt_val<T>(m: Option<&T>) -> Option<T> { match m { Some(x) => Some(*x), None => None } }
+pub open spec fn secret(m: Option<MetaInputValue>) -> bool { m is Some && m->Some_0.is_secret }
+// the input-object field table that describes the fields of a value of declared type m.ty (wrappers removed), if it is an input object
+pub open spec fn input_fields_of(reg: &Registry, m: Option<MetaInputValue>) -> Option<StrMap<MetaInputValue>> {
+    match m {
+        Some(iv) => { let tn = MetaTypeName::spec_concrete_typename(iv.ty@);
+            if reg.types.view().contains_key(tn) { match reg.types.view()[tn] { MetaType::InputObject { input_fields, .. } => Some(input_fields), _ => None } } else { None } },
+        None => None,
+    }
 }
+pub open spec fn field_meta(fs: StrMap<MetaInputValue>, key: Seq<char>) -> Option<MetaInputValue> { if fs.view().contains_key(key) { Some(fs.view()[key]) } else { None } }
+// the redacted rendering: a secret position prints the placeholder; lists keep the meta of the list; object fields use the meta of THEIR field
+pub open spec fn red(reg: &Registry, m: Option<MetaInputValue>, v: ConstValue) -> Seq<char> decreases v, 0nat {
+    if secret(m) { "\"<secret>\""@ } else { match v {
+        ConstValue::Object(obj) => match input_fields_of(reg, m) {
+            Some(fs) => seq!['{'] + red_obj(reg, fs, obj.ents(), obj.ents().len()) + seq!['}'],
+            None => display_value(v) },
+        ConstValue::List(list) => seq!['['] + red_list(reg, m, list@, list@.len()) + seq![']'],
+        _ => display_value(v),
+    } }
+}
+pub open spec fn red_obj(reg: &Registry, fs: StrMap<MetaInputValue>, es: Seq<(Name, ConstValue)>, n: nat) -> Seq<char> decreases es, n {
+    if n == 0 || n > es.len() { Seq::empty() } else {
+        red_obj(reg, fs, es, (n - 1) as nat) + (if n - 1 > 0 { ", "@ } else { Seq::empty() }) + es[n - 1].0@ + ": "@ + red(reg, field_meta(fs, es[n - 1].0@), es[n - 1].1)
+    }
+}
+pub open spec fn red_list(reg: &Registry, m: Option<MetaInputValue>, s: Seq<ConstValue>, n: nat) -> Seq<char> decreases s, n {
+    if n == 0 || n > s.len() { Seq::empty() } else {
+        red_list(reg, m, s, (n - 1) as nat) + (if n - 1 > 0 { ", "@ } else { Seq::empty() }) + red(reg, m, s[n - 1])
+    }
+}
+// two values agree outside secret positions
+pub open spec fn low_eq(reg: &Registry, m: Option<MetaInputValue>, a: ConstValue, b: ConstValue) -> bool decreases a, 0nat {
+    if secret(m) { true } else { match a {
+        ConstValue::Object(x) => match input_fields_of(reg, m) {
+            Some(fs) => b is Object && low_eq_obj(reg, fs, x.ents(), b->Object_0.ents(), x.ents().len()) && x.ents().len() == b->Object_0.ents().len(),
+            None => a == b },
+        ConstValue::List(x) => b is List && x@.len() == b->List_0@.len() && low_eq_list(reg, m, x@, b->List_0@, x@.len()),
+        _ => a == b,
+    } }
+}
+pub open spec fn low_eq_obj(reg: &Registry, fs: StrMap<MetaInputValue>, x: Seq<(Name, ConstValue)>, y: Seq<(Name, ConstValue)>, n: nat) -> bool decreases x, n {
+    if n == 0 || n > x.len() || n > y.len() { true } else {
+        low_eq_obj(reg, fs, x, y, (n - 1) as nat) && x[n - 1].0@ == y[n - 1].0@ && low_eq(reg, field_meta(fs, x[n - 1].0@), x[n - 1].1, y[n - 1].1)
+    }
+}
+pub open spec fn low_eq_list(reg: &Registry, m: Option<MetaInputValue>, x: Seq<ConstValue>, y: Seq<ConstValue>, n: nat) -> bool decreases x, n {
+    if n == 0 || n > x.len() || n > y.len() { true } else { low_eq_list(reg, m, x, y, (n - 1) as nat) && low_eq(reg, m, x[n - 1], y[n - 1]) }
+}
+// NON-INTERFERENCE: the redacted rendering of two values that agree outside secret positions is the same text
+pub proof fn lemma_noninterference(reg: &Registry, m: Option<MetaInputValue>, a: ConstValue, b: ConstValue)
+    requires low_eq(reg, m, a, b) ensures red(reg, m, a) == red(reg, m, b) decreases a, 0nat
+{
+    if secret(m) { } else { match a {
+        ConstValue::Object(x) => { match input_fields_of(reg, m) { Some(fs) => { lemma_ni_obj(reg, fs, x.ents(), b->Object_0.ents(), x.ents().len()); }, None => {} } },
+        ConstValue::List(x) => { lemma_ni_list(reg, m, x@, b->List_0@, x@.len()); },
+        _ => {},
+    } }
+}
+pub proof fn lemma_ni_obj(reg: &Registry, fs: StrMap<MetaInputValue>, x: Seq<(Name, ConstValue)>, y: Seq<(Name, ConstValue)>, n: nat)
+    requires low_eq_obj(reg, fs, x, y, n), n <= x.len(), n <= y.len() ensures red_obj(reg, fs, x, n) == red_obj(reg, fs, y, n) decreases x, n
+{ if n > 0 { lemma_ni_obj(reg, fs, x, y, (n - 1) as nat); lemma_noninterference(reg, field_meta(fs, x[n - 1].0@), x[n - 1].1, y[n - 1].1); } }
+pub proof fn lemma_ni_list(reg: &Registry, m: Option<MetaInputValue>, x: Seq<ConstValue>, y: Seq<ConstValue>, n: nat)
+    requires low_eq_list(reg, m, x, y, n), n <= x.len(), n <= y.len() ensures red_list(reg, m, x, n) == red_list(reg, m, y, n) decreases x, n
+{ if n > 0 { lemma_ni_list(reg, m, x, y, (n - 1) as nat); lemma_noninterference(reg, m, x[n - 1], y[n - 1]); } }
 '''
 
 
 def redact_unit(kf):
-    u = Unit('c21_stringify_input_value', ['C21'], 'stringify_input_value prints "<secret>" for a secret input value and nothing else of it')
+    u = Unit('c21_stringify_input_value', ['C21'], 'stringify_input_value appends exactly the redacted rendering, which does not depend on secret parts (non-interference lemma)')
     u.kf = kf
-    value_types(u, with_value=False)
+    value_types(u, with_value=False, emap=True)
     u.prelude('registry_shim')
     u.prelude('sdl_sink')
     u.prelude('string_write')
@@ -48,22 +111,38 @@ def redact_unit(kf):
     u.shim_conformance(R, ['struct MetaInputValue'], [('ty', 'String'), ('is_secret', 'bool')])
     u.shim_conformance(R, ['enum MetaType'], [('name', 'String'), ('input_fields', 'IndexMap<String, MetaInputValue>')], variant='InputObject')
     u.shim_conformance(R, ['struct Registry'], [('types', 'BTreeMap<String, MetaType>')])
+    u.spec(REDACT_SPEC, 'redacted rendering + non-interference')
+    M = 'opt_val(meta_input_value)'
     u.extract_fn(F, ['impl Registry', 'fn stringify_input_value'], wrap_impl='Registry',
                  rewrites=[ClosureDesugar('map', count=1), ClosureDesugar('and_then', count=1),
                            Sub('.unwrap_or_default()', '.unwrap_or(false)', count=1, rule='R-ty'),
                            Sub('for (idx, (key, value)) in obj.iter().enumerate() {', 'for idx in it: 0..obj.len() { let (key, value) = obj.entry(idx);', rule='R-iter'),
                            Sub('for (idx, item) in list.iter().enumerate() {', 'for idx in it2: 0..list.len() { let item = &list[idx];', rule='R-iter'),
-                           WriteMacro(count=3, ok='Ok::<(), core::fmt::Error>(())', arg_methods={'value': 'write_value'}),
+                           WriteMacro(count=3, infallible=True, arg_methods={'value': 'write_value'}),
                            ],
-                 head_proof='proof { @REVEALS@ }',
-                 ensures=['r is Ok && meta_input_value is Some && meta_input_value->Some_0.is_secret ==> final(output)@ == old(output)@ + "\\"<secret>\\""@   // a secret value contributes nothing but the placeholder',
-                          'r is Ok && !(meta_input_value is Some && meta_input_value->Some_0.is_secret) && !(value is Object) && !(value is List) ==> final(output)@ == old(output)@ + display_value(*value)',
-                          'r is Ok ==> final(output)@.len() >= old(output)@.len() && final(output)@.take(old(output)@.len() as int) == old(output)@   // append-only'],
-                 loops={0: dict(prop=[], aux=['output@.len() >= old(output)@.len() && output@.take(old(output)@.len() as int) == old(output)@']),
-                        1: dict(prop=[], aux=['output@.len() >= old(output)@.len() && output@.take(old(output)@.len() as int) == old(output)@'])},
-                 attrs=['#[verifier::exec_allows_no_decreases_clause]', '#[verifier::loop_isolation(false)]'])
-    u.assume('stringify_input_value: termination not proved (recursion through the opaque IndexMap shim)')
-    u.assume('only the secret short-circuit, the leaf case and append-only-ness are under contract; that every nested value is printed through the recursive call with the meta of ITS field is NOT (object case stated only as append-only); covered by the bounded stand-in c21_redact')
+                 head_proof='proof { @REVEALS@ }\nlet ghost whole = *value;',
+                 ensures=[f'r is Ok ==> final(output)@ =~= old(output)@ + red(self, {M}, *value)   // the appended text is the redacted rendering: a function of the non-secret parts only (lemma_noninterference)',
+                          'r is Ok'],
+                 decreases='*value',
+                 loops={0: dict(prop=[f'output@ =~= old(output)@ + seq![\'{{\'] + red_obj(self, *input_fields, obj.ents(), it.index@ as nat)'],
+                                aux=['whole == *value', 'whole is Object', 'obj.ents() == whole->Object_0.ents()', 'it.index@ <= obj.ents().len()', f'!secret({M})', f'input_fields_of(self, {M}) == Some(*input_fields)'],
+                                head='''proof { assert(decreases_to!(whole => whole->Object_0.entries@[idx as int].1)); }
+let ghost before = output@;''',
+                                tail='''proof {
+    let sep = if idx > 0 { ", "@ } else { Seq::<char>::empty() };
+    let fm = field_meta(*input_fields, obj.ents()[idx as int].0@);
+    assert(red_obj(self, *input_fields, obj.ents(), (idx + 1) as nat) == red_obj(self, *input_fields, obj.ents(), idx as nat) + sep + obj.ents()[idx as int].0@ + ": "@ + red(self, fm, obj.ents()[idx as int].1));
+}'''),
+                        1: dict(prop=[f'output@ =~= old(output)@ + seq![\'[\'] + red_list(self, {M}, list@, it2.index@ as nat)'],
+                                aux=['whole == *value', 'whole is List', 'list@ == whole->List_0@', 'it2.index@ <= list@.len()', f'!secret({M})'],
+                                head='let ghost before = output@;',
+                                tail=f'''proof {{
+    let sep = if idx > 0 {{ ", "@ }} else {{ Seq::<char>::empty() }};
+    assert(red_list(self, {M}, list@, (idx + 1) as nat) == red_list(self, {M}, list@, idx as nat) + sep + red(self, {M}, list@[idx as int]));
+}}''')},
+                 attrs=['#[verifier::loop_isolation(false)]'])
+    u.assume('Display for ConstValue / Name is opaque here (display_value; the string part is C15\'s write_quoted unit)')
+    u.assume('non-interference is relative to the registry\'s secret flags and input-object tables: a value whose declared type is unknown to the registry, or is not an input object, is printed verbatim (no secret marking can apply to it)')
     u.search_case('stringify_exec_doc.rs', 'c21_redact')
     return u
 
